@@ -176,6 +176,7 @@ func genC03(g *h.G) {
 		}
 	}
 	genAbiBodies(g)
+	genNilPointers(g)
 	genTags(g)
 	genReal(g)
 }
